@@ -298,6 +298,13 @@ func (in *Interp) imgStore(addr *Term, v *Term) {
 		a := Add(addr, BV(64, uint64(i)))
 		p.image = Store(p.image, a, b)
 		p.imgLog = append(p.imgLog, a)
+		if !p.imgSeen[a] {
+			if p.imgSeen == nil {
+				p.imgSeen = map[*Term]bool{}
+			}
+			p.imgSeen[a] = true
+			p.imgUniq = append(p.imgUniq, a)
+		}
 	}
 	p.imgWrites++
 }
